@@ -18,7 +18,7 @@ RULE = (
     "objects (in-place value edits, attribute edits and variable deletion on to_xarray() results; column insertion / row "
     "deletion on GeoDataFrames from Grid.to_geodataframe and UxDataArray.to_geodataframe). Oracles: deep snapshot of every "
     "input before / after; the untouched side's exported variables and values unchanged after each mutation of the other "
-    "side; the grid's reports unchanged after edits of exported objects. Non-trivial = a copy is mutated, or an export is "
+    "side; the grid's reports unchanged after edits of exported objects. Topology constructors also receive caller-owned node_x/y/z (unit or radius 6371229); UxDataArray.to_geodataframe is exercised cached and with cache=False on a grid that already holds a frame. Non-trivial = a copy is mutated, or an export is "
     "edited, or the input needed conversion (start_index 1, 0..360 longitudes, non-standard fill); distinct by case hash."
 )
 ASSUMPTIONS = [
